@@ -15,3 +15,8 @@ def regenerate_all(repo, lean_dir):
         prior_dispatch.regenerate(repo, lean_dir)
     except ImportError:
         pass
+    try:
+        from extract import create_vectors
+        create_vectors.regenerate(repo, lean_dir)
+    except ImportError:
+        pass
